@@ -2,6 +2,7 @@ package mc
 
 import (
 	"fmt"
+	"strings"
 
 	"github.com/element-of-surprise/coercion/workflow"
 )
@@ -261,15 +262,29 @@ func crashItems(prop, tier string, scs []*Scenario) []WorkItem {
 			it.Opts.MaxSeconds = 1200
 			it.Opts.FreeSwitch = true
 			it.Args = map[string]int{"first": 1, "rec": 1, "crashes": 2}
+		} else if twoCrashQuick(sc.Name) {
+			// the smallest shapes get the second crash in the quick tier too (every durable state of every recovery
+			// run is a second crash point): this is where the thorough tier found five recovery defects
+			it.Args = map[string]int{"first": 1, "rec": 1, "crashes": 2}
 		}
 		items = append(items, it)
 	}
 	return items
 }
 
+func twoCrashQuick(name string) bool {
+	name = strings.TrimSuffix(strings.TrimSuffix(name, "-aged"), "-live")
+	switch name {
+	case "crash-b1-n1-a1-c1-t0-f-1", "crash-b1-n1-a1-c1-t0-f0", "crash-b2-n1-a1-c1-t0-f-1", "crash-b1-n2-a1-c1-t0-f1", "crash-b1-n2-a1-c1-t1-f0",
+		"crash-b1-n2-a1-c2-t0-f0", "crash-chk-plan-pre-failtrue", "crash-chk-block-pre-failtrue", "crash-chk-block-def-failtrue", "crash-chk-plan-def-failfalse", "crash-retry-t-ok":
+		return true
+	}
+	return false
+}
+
 const crashRule = "family F-crash (1-2 blocks, 1-3 sequences x 1-2 actions, c in {1,2}, t in {0,1}, <=1 failing action at every position, two failing sequences against the tolerance, each check group at each level passing/failing, all groups, retried actions); " +
 	"first run explored under the deviation bound; EVERY reachable durable state (= every prefix of the serialised write sequence of every explored execution) is a crash point; crash states are de-duplicated by canonical durable content; " +
-	"each is rebuilt in a fresh store through the public Create/Update* API and a new Workstream recovers it, explored under the deviation bound; in the thorough tier every durable state of every recovery run is a second crash point; " +
+	"each is rebuilt in a fresh store through the public Create/Update* API and a new Workstream recovers it, explored under the deviation bound; in the thorough tier (and for eleven of the smallest shapes in the quick tier) every durable state of every recovery run is a second crash point; " +
 	"distinct_nontrivial = distinct crash states in which at least one object is durably Running"
 
 func init() {
